@@ -27,7 +27,7 @@ def key(name, call):
 
 def main(tier, seed, only=None):
     rep = Report('C10', tier, seed)
-    timeout = 60 if tier == 'quick' else 900
+    timeout = 100 if tier == 'quick' else 900
     rep.functions = ['graph.ComponentSpecification.resolveArguments', 'graph.DataReference.__init__/absoluteReference/relativeReference',
                      'graph.ComponentIdentifier']
     rep.bounds = {'symbolic producer name': '<= 2 printable ASCII characters against the concrete representatives A, AB, A1',
